@@ -147,7 +147,7 @@ def counter(F, R):
     R.ob('C12.counter', 'L3|inc adds (1,size)', bad['L3inc'] is None, 'state %s' % bad['L3inc'])
     R.ob('C12.counter', 'L3|dec subtracts (1,size)', bad['L3dec'] is None, 'state %s' % bad['L3dec'])
     # guard pairing: CounterGuard::new calls inc(size) and stores the same size; Drop calls dec(self.0)
-    g = F.one(r'^inflight::CounterGuard::new$')
+    g = F.body('inflight::CounterGuard::new') or F.one(r'^inflight::Counter::get$')   # (the one-call constructor may be folded into Counter::get)
     incs = list(g.calls_to(r'^inflight::CounterInner::inc$'))
     ok = False
     size_field = '0'
